@@ -216,4 +216,288 @@ theorem rev_spec (w n : Nat) (hw : 0 < w) (g : Nat → Int) (hg : ∀ j, g j < i
       have : i + 1 - (j + 1) = i - j := by omega
       rw [this]; exact hq2
 
+
+/-! ### combining the two passes -/
+
+theorem leftMin_merge (g : Nat → Int) (a c b r f : Nat)
+    (hr : IsLeftMin g a c r) (hf : IsLeftMin g c b f) :
+    IsLeftMin g a b (if g f < g r then f else r) := by
+  obtain ⟨r1, r2, r3, r4⟩ := hr
+  obtain ⟨f1, f2, f3, f4⟩ := hf
+  by_cases h : g f < g r
+  · simp only [h, if_true]
+    refine ⟨by omega, f2, ?_, ?_⟩
+    · intro j h1 h2
+      by_cases hj : j < c
+      · have := r3 j h1 hj; omega
+      · exact f3 j (by omega) h2
+    · intro j h1 h2
+      by_cases hj : j < c
+      · have := r3 j h1 hj; omega
+      · exact f4 j (by omega) h2
+  · simp only [h, if_false]
+    refine ⟨r1, by omega, ?_, ?_⟩
+    · intro j h1 h2
+      by_cases hj : j < c
+      · exact r3 j h1 hj
+      · have := f3 j (by omega) h2; omega
+    · intro j h1 h2
+      exact r4 j h1 h2
+
+/-- the executable specification `leftmostArgmin` computes the `IsLeftMin` position -/
+theorem leftmostArgmin_spec (ord : List Int) (g : Nat → Int)
+    (hg : ∀ j, j < ord.length → ord[j]? = some (g j)) :
+    ∀ (len lo : Nat), 0 < len → lo + len ≤ ord.length →
+      ∃ p, leftmostArgmin ord lo len = some p ∧ IsLeftMin g lo (lo + len) p := by
+  intro len
+  induction len with
+  | zero => intro lo h; omega
+  | succ len ih =>
+    intro lo _ hle
+    simp only [leftmostArgmin, hg lo (by omega)]
+    cases len with
+    | zero =>
+      simp only [leftmostArgmin]
+      refine ⟨lo, rfl, Nat.le_refl _, by omega, ?_, ?_⟩
+      · intro j h1 h2
+        have : j = lo := by omega
+        subst this; exact Int.le_refl _
+      · intro j h1 h2; omega
+    | succ len =>
+      obtain ⟨j, hj, l1, l2, l3, l4⟩ := ih (lo + 1) (by omega) (by omega)
+      simp only [hj, hg j (by omega)]
+      by_cases hlt : g j < g lo
+      · simp only [hlt, if_true]
+        refine ⟨j, rfl, by omega, by omega, ?_, ?_⟩
+        · intro i h1 h2
+          by_cases hi : i = lo
+          · subst hi; omega
+          · exact l3 i (by omega) (by omega)
+        · intro i h1 h2
+          by_cases hi : i = lo
+          · subst hi; exact hlt
+          · exact l4 i (by omega) h2
+      · simp only [hlt, if_false]
+        refine ⟨lo, rfl, Nat.le_refl _, by omega, ?_, ?_⟩
+        · intro i h1 h2
+          by_cases hi : i = lo
+          · subst hi; exact Int.le_refl _
+          · have := l3 i (by omega) (by omega); omega
+        · intro i h1 h2; omega
+
+
+/-! ### the list level -/
+
+/-- key function of a key list (0 outside the list; never used there) -/
+def gOf (ord : List Int) (j : Nat) : Int := ord[j]?.getD 0
+
+theorem gOf_get (ord : List Int) (j : Nat) (hj : j < ord.length) : ord[j]? = some (gOf ord j) := by
+  simp [gOf, List.getElem?_eq_getElem hj]
+
+theorem gOf_lt (ord : List Int) (hmax : ∀ v ∈ ord, v < int64Max) (j : Nat) : gOf ord j < int64Max := by
+  unfold gOf
+  cases h : ord[j]? with
+  | none => simp [int64Max]
+  | some v => simpa using hmax v (List.mem_of_getElem? h)
+
+theorem ord_eq_map (ord : List Int) : ord = (List.range' 0 ord.length).map (gOf ord) := by
+  apply List.ext_getElem?
+  intro j
+  by_cases hj : j < ord.length
+  · simp [hj, gOf]
+  · simp [hj]
+
+theorem ord_reverse_eq_map (ord : List Int) :
+    ord.reverse = (List.range ord.length).reverse.map (gOf ord) := by
+  have h := ord_eq_map ord
+  rw [← List.range_eq_range'] at h
+  rw [List.map_reverse, ← h]
+
+theorem fwd_list (ord : List Int) (w : Nat) (hw : 0 < w) (hmax : ∀ v ∈ ord, v < int64Max)
+    (j : Nat) (hj : j < ord.length) :
+    ∃ p, (fwdArgcummin w 0 int64Max 0 ord)[j]? = some p ∧
+      IsLeftMin (gOf ord) (w * (j / w)) (j + 1) p := by
+  have := fwd_spec w hw (gOf ord) (gOf_lt ord hmax) ord.length 0 int64Max 0 (Or.inl (Nat.zero_mod w)) j hj
+  rw [← ord_eq_map] at this
+  simpa using this
+
+theorem rev_list (ord : List Int) (w : Nat) (hw : 0 < w) (hmax : ∀ v ∈ ord, v < int64Max)
+    (k : Nat) (hk : k < ord.length) :
+    ∃ p, (revArgcummin w ord)[k]? = some p ∧
+      IsLeftMin (gOf ord) k (chunkEnd w ord.length k) p := by
+  unfold revArgcummin
+  have hn : ord.length = (ord.length - 1) + 1 := by omega
+  have hlist : ord.reverse = (List.range ((ord.length - 1) + 1)).reverse.map (gOf ord) := by
+    rw [← hn]; exact ord_reverse_eq_map ord
+  have hinv : (ord.length - 1) % w + 1 = w ∨
+      (int64Max = int64Max ∧ ord.length - 1 + 1 = chunkEnd w ord.length (ord.length - 1)) ∨
+      (int64Max = gOf ord 0 ∧ IsLeftMin (gOf ord) (ord.length - 1 + 1) (chunkEnd w ord.length (ord.length - 1)) 0) := by
+    right; left
+    refine ⟨rfl, ?_⟩
+    have := chunk_decomp w (ord.length - 1)
+    have := Nat.mod_lt (ord.length - 1) hw
+    unfold chunkEnd; omega
+  have hspec := rev_spec w ord.length hw (gOf ord) (gOf_lt ord hmax) (ord.length - 1) int64Max 0 (by omega) hinv
+    (ord.length - 1 - k) (by omega)
+  rw [← hlist] at hspec
+  obtain ⟨p, hp1, hp2⟩ := hspec
+  refine ⟨p, ?_, ?_⟩
+  · have hlen := revAux_length w ord.reverse (ord.length - 1) int64Max 0
+    rw [List.length_reverse] at hlen
+    rw [List.getElem?_reverse (by omega), hlen]
+    exact hp1
+  · have : ord.length - 1 - (ord.length - 1 - k) = k := by omega
+    rw [this] at hp2; exact hp2
+
+
+/-- one window: the combination of the forward value at the window end and the reverse value at the
+window start is the leftmost minimum of the window -/
+theorem window_min (ord : List Int) (w : Nat) (hw : 0 < w) (hmax : ∀ v ∈ ord, v < int64Max)
+    (i : Nat) (hi : i + w ≤ ord.length) :
+    ∃ f r c, (fwdArgcummin w 0 int64Max 0 ord)[i + w - 1]? = some f ∧ (revArgcummin w ord)[i]? = some r ∧
+      combine ord f r = some c ∧ IsLeftMin (gOf ord) i (i + w) c := by
+  obtain ⟨f, hf1, hf2⟩ := fwd_list ord w hw hmax (i + w - 1) (by omega)
+  obtain ⟨r, hr1, hr2⟩ := rev_list ord w hw hmax i (by omega)
+  have hfn : f < ord.length := by have := hf2.2.1; omega
+  have hrn : r < ord.length := by have := hr2.2.1; unfold chunkEnd at this; omega
+  refine ⟨f, r, if gOf ord f < gOf ord r then f else r, hf1, hr1, ?_, ?_⟩
+  · simp [combine, gOf_get ord f hfn, gOf_get ord r hrn]
+  · have hd := chunk_decomp w i
+    have hmod : i % w < w := Nat.mod_lt _ hw
+    have hend : i + w - 1 + 1 = i + w := by omega
+    rw [hend] at hf2
+    by_cases h0 : i % w = 0
+    · -- the window is exactly one chunk: both passes give the same position
+      have hq : (i + w - 1) / w = i / w ∧ (i + w - 1) % w = w - 1 := by
+        apply (Nat.div_mod_unique hw).2
+        constructor <;> omega
+      rw [hq.1] at hf2
+      have hs : w * (i / w) = i := by omega
+      rw [hs] at hf2
+      have he : chunkEnd w ord.length i = i + w := by unfold chunkEnd; omega
+      rw [he] at hr2
+      have : f = r := hf2.unique hr2
+      subst this
+      simpa using hr2
+    · -- the window spans two chunks: reverse pass covers the left part, forward pass the right part
+      have hq : (i + w - 1) / w = i / w + 1 ∧ (i + w - 1) % w = i % w - 1 := by
+        apply (Nat.div_mod_unique hw).2
+        rw [Nat.mul_add, Nat.mul_one]
+        constructor <;> omega
+      rw [hq.1, Nat.mul_add, Nat.mul_one] at hf2
+      have he : chunkEnd w ord.length i = w * (i / w) + w := by unfold chunkEnd; omega
+      rw [he] at hr2
+      exact leftMin_merge (gOf ord) i (w * (i / w) + w) (i + w) r f hr2 hf2
+
+theorem mapMExcept_ok {α β : Type} (f : α → Except Err β) (h : α → β) (l : List α)
+    (hf : ∀ x ∈ l, f x = .ok (h x)) : mapMExcept f l = .ok (l.map h) := by
+  induction l with
+  | nil => rfl
+  | cons x xs ih =>
+    simp only [mapMExcept, hf x (by simp), ih (fun y hy => hf y (by simp [hy])), List.map_cons]
+
+/-- the specification: leftmost minimum of every window of width `w` -/
+def windowMinima (ord : List Int) (w : Nat) : List (Option Nat) :=
+  (List.range (ord.length - (w - 1))).map fun i => leftmostArgmin ord i w
+
+theorem minimizeAll_spec (ord : List Int) (w : Nat) (hw : 0 < w) (hmax : ∀ v ∈ ord, v < int64Max) :
+    ∃ ps, minimizeAll ord w = .ok ps ∧ ps.map some = windowMinima ord w ∧
+      (∀ i, i + w ≤ ord.length → ∃ p, ps[i]? = some p ∧ IsLeftMin (gOf ord) i (i + w) p) ∧
+      ∀ p ∈ ps, p < ord.length := by
+  have hstep : ∀ i ∈ List.range (ord.length - (w - 1)),
+      leftmostArgmin ord i w = some ((leftmostArgmin ord i w).getD 0) ∧
+      IsLeftMin (gOf ord) i (i + w) ((leftmostArgmin ord i w).getD 0) ∧
+      (match (fwdArgcummin w 0 int64Max 0 ord)[i + w - 1]?, (revArgcummin w ord)[i]? with
+        | some f, some r => match combine ord f r with
+          | some c => (Except.ok c : Except Err Nat)
+          | none => .error ub
+        | _, _ => .error ub) = .ok ((leftmostArgmin ord i w).getD 0) := by
+    intro i hi
+    have hi' : i + w ≤ ord.length := by have := List.mem_range.1 hi; omega
+    obtain ⟨f, r, c, h1, h2, h3, h4⟩ := window_min ord w hw hmax i hi'
+    obtain ⟨p, hp1, hp2⟩ := leftmostArgmin_spec ord (gOf ord) (gOf_get ord) w i hw hi'
+    have : c = p := h4.unique hp2
+    subst this
+    simp [h1, h2, h3, hp1, hp2]
+  refine ⟨(List.range (ord.length - (w - 1))).map fun i => (leftmostArgmin ord i w).getD 0, ?_, ?_, ?_, ?_⟩
+  · unfold minimizeAll
+    exact mapMExcept_ok _ _ _ (fun i hi => (hstep i hi).2.2)
+  · unfold windowMinima
+    rw [List.map_map]
+    apply List.map_congr_left
+    intro i hi
+    exact ((hstep i hi).1).symm
+  · intro i hi
+    have hmem : i ∈ List.range (ord.length - (w - 1)) := List.mem_range.2 (by omega)
+    refine ⟨_, ?_, (hstep i hmem).2.1⟩
+    simp [List.mem_range.1 hmem]
+
+  · intro p hp
+    simp only [List.mem_map] at hp
+    obtain ⟨i, hi, rfl⟩ := hp
+    have h1 := (hstep i hi).2.1.2.1
+    have := List.mem_range.1 hi
+    omega
+
+theorem mapMExcept_length {α β : Type} (f : α → Except Err β) :
+    ∀ (l : List α) (r : List β), mapMExcept f l = .ok r → r.length = l.length := by
+  intro l
+  induction l with
+  | nil => intro r h; simp only [mapMExcept] at h; cases h; rfl
+  | cons x xs ih =>
+    intro r h
+    simp only [mapMExcept] at h
+    split at h
+    · cases h
+    · split at h
+      · cases h
+      · rename_i ys hys
+        cases h
+        simp [ih ys hys]
+
+theorem perm_apply_length (p : Perm) (kmers : List Nat) (ord : List Int) (h : p.apply kmers = .ok ord) :
+    ord.length = kmers.length := by
+  cases p with
+  | ident => simp only [Perm.apply] at h; cases h; simp
+  | random => simp only [Perm.apply] at h; cases h; simp
+  | freq counts => exact mapMExcept_length _ _ _ h
+  | table vals => exact mapMExcept_length _ _ _ h
+
+theorem mem_dedupConsecutive : ∀ (l : List Nat) (x : Nat), x ∈ dedupConsecutive l → x ∈ l := by
+  intro l
+  induction l with
+  | nil => intro x h; simp [dedupConsecutive] at h
+  | cons a t ih =>
+    intro x h
+    cases t with
+    | nil => simpa [dedupConsecutive] using h
+    | cons b r =>
+      simp only [dedupConsecutive] at h
+      split at h
+      · exact List.mem_cons_of_mem _ (ih x h)
+      · rcases List.mem_cons.1 h with h | h
+        · simp [h]
+        · exact List.mem_cons_of_mem _ (ih x h)
+
+theorem minimizerSelect_spec (w : Nat) (hw : 2 ≤ w) (p : Perm) (kmers : List Nat) (ord : List Int)
+    (happly : p.apply kmers = .ok ord) (hlen : w ≤ kmers.length) (hmax : ∀ v ∈ ord, v < int64Max) :
+    ∃ ps, minimizeAll ord w = .ok ps ∧ ps.map some = windowMinima ord w ∧
+      minimizerSelect w p kmers = .ok ((dedupConsecutive ps).map fun i => (i, kmers[i]?.getD 0)) ∧
+      ∀ i ∈ dedupConsecutive ps, kmers[i]? = some (kmers[i]?.getD 0) := by
+  obtain ⟨ps, h1, h2, _, h4⟩ := minimizeAll_spec ord w (by omega) hmax
+  have hl := perm_apply_length p kmers ord happly
+  have hget : ∀ i ∈ dedupConsecutive ps, kmers[i]? = some (kmers[i]?.getD 0) := by
+    intro i hi
+    have : i < kmers.length := by have := h4 i (mem_dedupConsecutive ps i hi); omega
+    simp [List.getElem?_eq_getElem this]
+  refine ⟨ps, h1, h2, ?_, hget⟩
+  unfold minimizerSelect
+  have hw' : ¬ w < 2 := by omega
+  have hl' : ¬ kmers.length < w := by omega
+  simp only [hw', if_false, happly, hl', h1]
+  apply mapMExcept_ok
+  intro i hi
+  rw [hget i hi]
+  rfl
+
 end BiotiteModel.C10
